@@ -1068,7 +1068,7 @@ func (eval Evaluator) tensorScaleInvariant(ct0 *rlwe.Ciphertext, ct1 *rlwe.Eleme
 
 		var rlk *rlwe.RelinearizationKey
 
-		if rlk, err = eval.GetRelinearizationKey(); err != nil {
+		if rlk, err = eval.CheckAndGetRelinearizationKey(); err != nil {
 			return fmt.Errorf("cannot TensorInvariant: %w", err)
 		}
 
